@@ -30,7 +30,7 @@ def run(ctx):
         for line in g.out.splitlines():
             if line.startswith('<<"HIST", '):
                 steps = json.loads(json.loads(line[len('<<"HIST", '):-2]))
-                stim.append({"t": len(stim) + 1, "reqs": REQS, "steps": steps})
+                stim.append({"t": len(stim) + 1, "reqs": REQS, "steps": steps, "hijack": len(stim) % 2 == 1})
     # directed scenarios that the random walks may miss: every request duplicated sequentially with each behaviour
     for q in range(1, 5):
         for b in ("piggy", "none"):
@@ -39,7 +39,7 @@ def run(ctx):
                      {"a": "inject", "g": 2, "q": q, "b": "none"}, {"a": "done", "g": 2, "q": 0, "b": "piggy"},
                      {"a": "expire", "g": 0, "q": 0, "b": "none"},
                      {"a": "inject", "g": 1, "q": q, "b": "none"}, {"a": "done", "g": 1, "q": 0, "b": b}]
-            stim.append({"t": len(stim) + 1, "reqs": REQS, "steps": steps})
+            stim.append({"t": len(stim) + 1, "reqs": REQS, "steps": steps, "hijack": len(stim) % 2 == 1})
     if not stim:
         raise vf.Machinery("no behaviours generated")
     spath = os.path.join(ctx.work, "stimuli.ndjson")
